@@ -1208,7 +1208,8 @@ where
                 }
                 self.consume('[');
                 let negate_set = self.try_consume('^');
-                let mut result = self.consume_class_set_expression(negate_set)?;
+                let mut result =
+                    self.consume_class_set_expression(negate_set || in_negated_class)?;
                 if negate_set {
                     // The complement is taken after case folding (CharacterComplement of the
                     // folded set).
@@ -1258,7 +1259,19 @@ where
                                 }
                             }
                         }
-                        Ok(ClassStringDisjunction(ClassSetAlternativeStrings(alternatives)))
+                        // A string of one character is just that character; anything else
+                        // (the empty string included) is a string, which a negated class may not contain.
+                        let mut set = ClassSet::new();
+                        for alternative in alternatives {
+                            if alternative.len() == 1 {
+                                set.codepoints.add_one(alternative[0]);
+                            } else if in_negated_class {
+                                return error("Negated class may not contain strings");
+                            } else if !set.alternatives.contains(&alternative) {
+                                set.alternatives.0.push(alternative);
+                            }
+                        }
+                        Ok(Class(set))
                     }
                     // CharacterClassEscape :: d
                     0x64 /* d */ => {
